@@ -500,3 +500,42 @@ Definition trace_x (ops : list xop) : list (list Z) :=
                               let '(h', v', rc) := xstep h v o in
                               (h', v', acc ++ [obs_all h' v' rc]))
                  ops (h0, v0, [obs_all h0 v0 0])).
+
+(* ------------------------------------------------------------------ *)
+(* Extension: ModelCollection.cast(obj) (model.py).  None -> empty collection;
+   a Model -> collection holding it; a ModelCollection -> THAT collection (the
+   same object, no copy); a sequence of Models -> new collection of them;
+   anything else -> TypeError.  "Model" is the class CBase here. *)
+Inductive castarg := CNone | CObj (o : obj) | CColl (j : nat) | CSeq (s : list obj) | COther.
+
+Definition mc_cast (h : heap) (a : castarg) : heap * res nat :=
+  match a with
+  | CNone => noc_new_from h CBase []
+  | CObj o =>
+      if cast_is_model (issub (ocls o) CBase) then noc_new_from h CBase [o]
+      else (h, Err TypeError)       (* not a collection, not a sequence *)
+  | CColl j =>
+      if cast_is_collection (match get_inst h j with Some _ => true | None => false end)
+      then (h, Ok j) else (h, Err TypeError)
+  | CSeq s =>
+      if cast_is_seq_of_models (forallb (fun o => issub (ocls o) CBase) s)
+      then noc_new_from h CBase s else (h, Err TypeError)
+  | COther => (h, Err TypeError)
+  end.
+
+Definition cast_objs (a : castarg) : list obj :=
+  match a with CObj o => [o] | CSeq s => s | _ => [] end.
+
+(* correspondence: run a history on x, y, z, then cast; 1 = the very collection x
+   came back, 2 = a new one; then the observation of the result and of x *)
+Inductive xcast := KNone | KObj (o : obj) | KX | KSeq (s : list obj) | KOther.
+
+Definition cast_trace (ops : list xop) (k : xcast) : list Z :=
+  let '(h, v, _, _) := run_x ops in
+  let a := match k with
+           | KNone => CNone | KObj o => CObj o | KX => CColl (vx v) | KSeq s => CSeq s | KOther => COther
+           end in
+  match mc_cast h a with
+  | (h', Ok c) => (if Nat.eqb c (vx v) then 1 else 2) :: obs_coll h' c ++ [-8] ++ obs_coll h' (vx v)
+  | (_, Err e) => [- errcode e]
+  end.
